@@ -248,6 +248,13 @@ impl<C: Config, Q: Query> Snapshot<C, Q> {
         let lock = self.lock.take().expect("snapshot lock must exist");
         drop(lock);
 
+        #[cfg(feature = "verif")]
+        qbice_storage::verif::task_point(
+            "upgrade_between",
+            qbice_storage::verif::PointKind::Await,
+        )
+        .await;
+
         let exclusive_lock = self
             .engine
             .computation_graph
